@@ -30,6 +30,7 @@ RULE = ('reference-encoded bpch images with 1-4 time blocks, 1-3 diagnostic '
         'tables (independent fixed-column table parser). '
         'non-trivial = >= 2 data blocks; distinct = digest of the spec.')
 RULE += (' The grid header (halfpolar and center180 drawn independently, model name, resolution) both readers state is compared with the file, and the latitude/longitude cells both derive from it with each other.')
+RULE += (' Law 5c (every second file): the file read with and without scaling is saved as netCDF, opened as a plain netCDF file and written as bpch again; the independent decoder must find the original raw values.')
 ASSUMPTIONS = [
     'the reference codec follows the GEOS-Chem/GAMAP "CTM bin 02" '
     'description; shared misreadings of that description are out of reach',
@@ -474,6 +475,57 @@ def run(spec, res):
                     break
         except Exception as e:
             res.note('copy-write-unavailable:%s' % type(e).__name__)
+        # (5c) the conversion chain: the file (read with and without scaling)
+        # saved as netCDF, opened as a plain netCDF file and written as bpch
+        # again - the raw values of the original come back
+        if spec['seed'] % 2 == 0 and not problems:
+            od4 = os.path.join(d, 'out4')
+            os.mkdir(od4)
+            for label, src in (('scaled', fs), ('unscaled', fr)):
+                try:
+                    import PseudoNetCDF as pnc
+                    pn = os.path.join(od4, label + '.nc')
+                    o = src.save(pn, format='NETCDF4_CLASSIC', verbose=0)
+                    o.close()
+                    gnc = pnc.pncopen(pn, format='netcdf')
+                    try:
+                        o4 = os.path.join(od4, label + '.bpch')
+                        o = pncgen(gnc, o4, format='bpch', verbose=0)
+                        o.close()
+                    finally:
+                        gnc.close()
+                    res.hook('writer.return')
+                    dec = refbpch.decode(open(o4, 'rb').read())
+                    ref = refbpch.decode(img)
+                    if len(dec['blocks']) != len(ref['blocks']):
+                        problems.append(
+                            'bpch (%s) -> netCDF -> bpch: %d blocks, the '
+                            'original has %d' % (label, len(dec['blocks']),
+                                                 len(ref['blocks'])))
+                        continue
+                    for bi, (a, b) in enumerate(zip(dec['blocks'],
+                                                    ref['blocks'])):
+                        if a['data'].shape != b['data'].shape or \
+                                not np.allclose(
+                                    a['data'].astype('f8'),
+                                    b['data'].astype('f8'),
+                                    rtol=8 * np.finfo('f4').eps, atol=0):
+                            with np.errstate(all='ignore'):
+                                rr = float(np.nanmedian(
+                                    a['data'].astype('f8') /
+                                    b['data'].astype('f8'))) if \
+                                    a['data'].shape == b['data'].shape \
+                                    else float('nan')
+                            problems.append(
+                                'bpch (%s) -> netCDF -> bpch: raw values of '
+                                'block %d (%s tracer %d) are off by a factor '
+                                '~%.3g' % (label, bi, b['category'],
+                                           b['tracerid'], rr))
+                            break
+                    res.facet('chain-via-netcdf:' + label)
+                except Exception as e:
+                    res.note('chain-via-netcdf-raised:%s:%s' % (
+                        label, type(e).__name__))
         # (4) block-walking reader
         try:
             f2 = bpch2(path)
